@@ -15,6 +15,9 @@ mod trrel_uf_only010__ser;
 mod trrel_uf_only001__ser;
 mod trrel_uf_only011__ser;
 mod trrel_uf_plain__ser;
+mod trrel_uf_plain__perm1;
+mod trrel_uf_plain__perm2;
+mod trrel_uf_plain__ren;
 
 fn lookup(name: &str) -> fn() -> Box<dyn Driven> {
    match name {
@@ -25,6 +28,9 @@ fn lookup(name: &str) -> fn() -> Box<dyn Driven> {
       "trrel_uf_only001__ser" => trrel_uf_only001__ser::make,
       "trrel_uf_only011__ser" => trrel_uf_only011__ser::make,
       "trrel_uf_plain__ser" => trrel_uf_plain__ser::make,
+      "trrel_uf_plain__perm1" => trrel_uf_plain__perm1::make,
+      "trrel_uf_plain__perm2" => trrel_uf_plain__perm2::make,
+      "trrel_uf_plain__ren" => trrel_uf_plain__ren::make,
       _ => panic!("no such program variant in this shard: {}", name),
    }
 }
